@@ -334,6 +334,29 @@ Record rp_args : Type := mk_rp_args { ra_min_cluster_size : Z }.
 Record rp_cluster : Type := mk_rp_cluster { rc_size : Z; rc_member_points : list Z }.
 Record rp_model : Type := mk_rp_model { rm_arguments : rp_args; rm_clusters : list rp_cluster; rm_point_labels : list Z }.
 
+(* elementwise operations on 2-D arrays and boolean masks *)
+Definition arr2_map {A B : Type} (f : A -> B) (a : arr2 A) : arr2 B :=
+  mk_arr2 (a_rows a) (a_cols a) (map (map f) (a_cells a)).
+Definition same_dims {A B : Type} (a : arr2 A) (b : arr2 B) : bool :=
+  (a_rows a =? a_rows b) && (a_cols a =? a_cols b).
+(* m1 & m2 *)
+Definition np_mask_and (m1 m2 : arr2 bool) : res (arr2 bool) :=
+  if same_dims m1 m2 then Ret (mk_arr2 (a_rows m1) (a_cols m1) (py_map2 (py_map2 andb) (a_cells m1) (a_cells m2)))
+  else Raise "ValueError".
+(* a[mask] = v  (v a scalar) *)
+Definition np_mask_set {F : Type} (a : arr2 F) (m : arr2 bool) (v : F) : res (arr2 F) :=
+  if same_dims a m then
+    Ret (mk_arr2 (a_rows a) (a_cols a) (py_map2 (py_map2 (fun x (b : bool) => if b then v else x)) (a_cells a) (a_cells m)))
+  else Raise "IndexError".
+
+(* the fields of ModelState that graphical_lasso._reconstruct_optimized_matrix reads *)
+Record gl_args (F : Type) : Type := mk_gl_args { ga_min_meaningful_covariance : F }.
+Arguments mk_gl_args {F} _.
+Arguments ga_min_meaningful_covariance {F} _.
+Record gl_model (F : Type) : Type := mk_gl_model { gm_arguments : gl_args F }.
+Arguments mk_gl_model {F} _.
+Arguments gm_arguments {F} _.
+
 (* ---- facts used by every equivalence proof ---- *)
 Lemma bind_ret {A B : Type} (a : A) (f : A -> res B) : bind (Ret a) f = f a.
 Proof. reflexivity. Qed.
